@@ -32,7 +32,11 @@ GEN_THEOREMS = ['Vakt.GenEquiv.gen_memory_add', 'Vakt.GenEquiv.gen_memory_update
                 # add / get / update / delete of the Redis and MongoDB storages: the client calls as effects = redisStep / mongoStep
                 'Vakt.GenEquiv.gen_redis_add', 'Vakt.GenEquiv.gen_redis_get', 'Vakt.GenEquiv.gen_redis_update',
                 'Vakt.GenEquiv.gen_redis_delete', 'Vakt.GenEquiv.gen_mongo_add', 'Vakt.GenEquiv.gen_mongo_get',
-                'Vakt.GenEquiv.gen_mongo_update', 'Vakt.GenEquiv.gen_mongo_delete']
+                'Vakt.GenEquiv.gen_mongo_update', 'Vakt.GenEquiv.gen_mongo_delete',
+                # the paged listings and the private generators of the two storages = redisGetAll / mongoGetAll
+                'Vakt.GenEquiv.gen_redis_get_all', 'Vakt.GenEquiv.gen_redis_find', 'Vakt.GenEquiv.gen_redis_feed',
+                'Vakt.GenEquiv.gen_mongo_get_all', 'Vakt.GenEquiv.gen_mongo_feed',
+                'Vakt.GenEquiv.translatedRedis_covers', 'Vakt.GenEquiv.translatedMongo_covers']
 FLOOR = {'quick': 150, 'thorough': 2000}
 ASSUMPTIONS = ['Redis and MongoDB are in-process fakes of the client calls vakt makes (no servers in this sandbox); SQL is '
                'the real SQLAlchemy on SQLite with foreign_keys=ON',
